@@ -1,0 +1,12 @@
+//go:build verif
+
+package rtprtcp
+
+// VerifListState is a read-only view of the reorder list of the container,
+// used by the verification harness (built only with -tags verif).
+func (r *RtpUnpackContainer) VerifListState() (seqs []uint16, size int, doneSeqFlag bool, doneSeq uint16) {
+	for p := r.list.Head.Next; p != nil; p = p.Next {
+		seqs = append(seqs, p.Packet.Header.Seq)
+	}
+	return seqs, r.list.Size, r.list.doneSeqFlag, r.list.doneSeq
+}
